@@ -332,3 +332,233 @@ pub fn run_c14(a: &Args) {
     // threads of an abandoned execution may still be parked
     std::process::exit(0);
 }
+
+// ------------------------------------------------------------------------------------------ C16
+thread_local! {
+    static CUR_TH: std::cell::Cell<usize> = std::cell::Cell::new(9);
+}
+
+struct ConcListener {
+    rec: Mutex<Option<(Arc<Recorder>, u64, String)>>, // recorder, epoch, resource of the running execution
+}
+impl ConcListener {
+    fn put(&self, prev: cb::State, to: &str, rule: &Arc<cb::Rule>) {
+        if let Some((rec, t0, res)) = self.rec.lock().unwrap().as_ref() {
+            if &rule.resource != res {
+                return;
+            }
+            let name = |s: cb::State| match s {
+                cb::State::Closed => "closed",
+                cb::State::HalfOpen => "halfopen",
+                cb::State::Open => "open",
+            };
+            rec.put(json!({"e": "tr", "th": CUR_TH.with(|c| c.get()), "prev": name(prev), "to": to, "t": rel_ms(*t0)}));
+        }
+    }
+}
+impl cb::StateChangeListener for ConcListener {
+    fn on_transform_to_closed(&self, prev: cb::State, rule: Arc<cb::Rule>) {
+        self.put(prev, "closed", &rule)
+    }
+    fn on_transform_to_open(&self, prev: cb::State, rule: Arc<cb::Rule>, _s: Option<Arc<sentinel_core::base::Snapshot>>) {
+        self.put(prev, "open", &rule)
+    }
+    fn on_transform_to_half_open(&self, prev: cb::State, rule: Arc<cb::Rule>) {
+        self.put(prev, "halfopen", &rule)
+    }
+    fn on_circuit_breaker_drop(&self, _prev: cb::State, _rule: Arc<cb::Rule>) {}
+}
+
+#[derive(Clone, Debug)]
+pub enum COp {
+    Build(u64),
+    Exit(u64, bool),
+    Advance(u64),
+    /// load an isolation rule of this threshold on the resource (requests beyond it are rejected elsewhere)
+    LoadIso(u32),
+}
+
+#[derive(Clone, Debug)]
+pub struct C16Scn {
+    pub name: String,
+    pub thr: u64,
+    pub minreq: u64,
+    pub setup: Vec<COp>,
+    pub threads: Vec<Vec<COp>>,
+    pub onebucket: bool,
+}
+
+pub fn c16_scenarios(thorough: bool) -> Vec<C16Scn> {
+    use COp::*;
+    let mut v = vec![
+        // several completions that each would open the breaker
+        C16Scn { name: "open-race-2".into(), thr: 1, minreq: 0, setup: vec![],
+                 threads: vec![vec![Build(1), Exit(1, true)], vec![Build(2), Exit(2, true)]], onebucket: true },
+        C16Scn { name: "open-race-thr2".into(), thr: 2, minreq: 2, setup: vec![Build(1), Build(2)],
+                 threads: vec![vec![Exit(1, true)], vec![Exit(2, true)]], onebucket: true },
+        // several requests arriving after the retry time-out
+        C16Scn { name: "probe-race-2".into(), thr: 1, minreq: 0, setup: vec![Build(1), Exit(1, true), Advance(1001)],
+                 threads: vec![vec![Build(2), Exit(2, false)], vec![Build(3), Exit(3, false)]], onebucket: false },
+        // a failing probe re-opens the breaker while another request is on its way in
+        C16Scn { name: "reopen-race".into(), thr: 1, minreq: 0, setup: vec![Build(1), Exit(1, true), Advance(1001)],
+                 threads: vec![vec![Build(2), Exit(2, true)], vec![Build(3), Exit(3, false)]], onebucket: false },
+        // a request arriving while a completion trips the breaker
+        C16Scn { name: "trip-vs-request".into(), thr: 1, minreq: 0, setup: vec![Build(1)],
+                 threads: vec![vec![Exit(1, true)], vec![Build(2), Exit(2, false)]], onebucket: true },
+        // a probe rejected by another rule (rolled back) racing with a stale completion
+        C16Scn { name: "blocked-probe-vs-stale".into(), thr: 1, minreq: 0,
+                 setup: vec![Build(1), Build(2), Exit(2, true), Advance(1001), LoadIso(1)],
+                 threads: vec![vec![Build(3), Exit(3, false)], vec![Exit(1, false)]], onebucket: false },
+        // a probe completion racing with a stale completion and a new request
+        C16Scn { name: "probe-vs-stale".into(), thr: 1, minreq: 0,
+                 setup: vec![Build(1), Build(2), Exit(2, true), Advance(1001)],
+                 threads: vec![vec![Build(3), Exit(3, false)], vec![Exit(1, true)]], onebucket: false },
+    ];
+    if thorough {
+        v.push(C16Scn { name: "open-race-3".into(), thr: 1, minreq: 0, setup: vec![],
+                        threads: vec![vec![Build(1), Exit(1, true)], vec![Build(2), Exit(2, true)], vec![Build(3), Exit(3, false)]], onebucket: true });
+        v.push(C16Scn { name: "probe-race-3".into(), thr: 1, minreq: 0, setup: vec![Build(1), Exit(1, true), Advance(1001)],
+                        threads: vec![vec![Build(2), Exit(2, false)], vec![Build(3), Exit(3, true)], vec![Build(4), Exit(4, false)]], onebucket: false });
+        v.push(C16Scn { name: "probe-stale-new".into(), thr: 1, minreq: 0,
+                        setup: vec![Build(1), Build(2), Exit(2, true), Advance(1001)],
+                        threads: vec![vec![Build(3), Exit(3, false)], vec![Exit(1, false)], vec![Build(4), Exit(4, false)]], onebucket: false });
+    }
+    v
+}
+
+pub fn c16_filter() -> Box<dyn Fn(&Pending) -> bool + Send + Sync> {
+    // scheduling points: everything the breaker synchronises on (its state mutex, the listener list, the
+    // retry stamp, the window counters); other locks are tracked but passed through
+    Box::new(|p: &Pending| p.site.starts_with("core/circuitbreaker/"))
+}
+
+type Entries = Arc<Mutex<HashMap<u64, sentinel_core::base::EntryStrongPtr>>>;
+
+fn c16_do(op: &COp, th: usize, res: &str, rec: &Arc<Recorder>, entries: &Entries, t0: u64) {
+    CUR_TH.with(|c| c.set(th));
+    match op {
+        COp::Advance(ms) => clock::advance_ms(*ms),
+        COp::LoadIso(thr) => {
+            let _ = isolation::load_rules_of_resource(
+                &res.to_string(),
+                vec![Arc::new(isolation::Rule { id: "i".into(), resource: res.to_string(), threshold: *thr, ..Default::default() })],
+            );
+        }
+        COp::Build(id) => {
+            rec.put(json!({"e": "cs", "th": th, "op": "build", "id": id, "err": false, "t": rel_ms(t0)}));
+            let r = guarded(|| EntryBuilder::new(res.to_string()).build());
+            let out = match r {
+                Ok(Ok(e)) => {
+                    entries.lock().unwrap().insert(*id, e);
+                    "pass"
+                }
+                Ok(Err(_)) => "block",
+                Err(_) => "panic",
+            };
+            rec.put(json!({"e": "ce", "th": th, "op": "build", "id": id, "r": out, "err": false, "t": rel_ms(t0)}));
+        }
+        COp::Exit(id, err) => {
+            let e = entries.lock().unwrap().remove(id);
+            if let Some(e) = e {
+                rec.put(json!({"e": "cs", "th": th, "op": "exit", "id": id, "err": err, "t": rel_ms(t0)}));
+                if *err {
+                    sentinel_core::api::trace_error(&e, sentinel_core::Error::msg("verif error"));
+                }
+                let r = guarded(|| e.exit());
+                rec.put(json!({"e": "ce", "th": th, "op": "exit", "id": id, "r": if r.is_ok() { "ok" } else { "panic" }, "err": err, "t": rel_ms(t0)}));
+            }
+        }
+    }
+}
+
+pub fn run_c16(a: &Args) {
+    let thorough = a.get_or("tier", "quick") == "thorough";
+    let mut out = Out::create(a.get("out"));
+    warm_up();
+    let lis = Arc::new(ConcListener { rec: Mutex::new(None) });
+    cb::register_state_change_listeners(vec![lis.clone()]);
+    let s = Sched::new(c16_filter());
+    sched::install(&s);
+    let rec = Recorder::new();
+    let mut summary = Vec::new();
+    let only = a.get_or("scenario", "");
+    let plan: Option<Vec<usize>> = a.map.get("plan").map(|p| p.split(',').filter(|x| !x.is_empty()).map(|x| x.parse().unwrap()).collect());
+    for scn in c16_scenarios(thorough) {
+        if !only.is_empty() && only != scn.name {
+            continue;
+        }
+        let ex = Explore {
+            bound: a.num("bound", if thorough { 3 } else { 2 }) as u32,
+            max_runs: a.num("max", if thorough { 300_000 } else { 15_000 }),
+            random_runs: a.num("random", if thorough { 5000 } else { 300 }),
+            seed: a.num("seed", 1),
+            plan: plan.clone(),
+        };
+        let o = explore(&s, &ex, &mut out, &scn.name, |n| {
+            let t0 = EPOCH_MS.fetch_add(60_000, Ordering::SeqCst) + 60_000;
+            let t0 = t0 - t0 % 10_000;
+            clock::set_ns((t0 + 100) * 1_000_000);
+            let res = format!("c16-{}-{}-{}", scn.name, std::process::id(), n);
+            let _ = rec.take();
+            *lis.rec.lock().unwrap() = Some((rec.clone(), t0, res.clone()));
+            let rule = Arc::new(cb::Rule {
+                id: "c".into(),
+                resource: res.clone(),
+                strategy: cb::BreakerStrategy::ErrorCount,
+                retry_timeout_ms: 1000,
+                min_request_amount: scn.minreq,
+                stat_interval_ms: 1000,
+                stat_sliding_window_bucket_count: 1,
+                max_allowed_rt_ms: 0,
+                threshold: scn.thr as f64,
+            });
+            let _ = cb::load_rules_of_resource(&res, vec![rule]);
+            let entries: Entries = Arc::new(Mutex::new(HashMap::new()));
+            // the sequential prelude (logged like everything else, thread 9)
+            for op in &scn.setup {
+                c16_do(op, 9, &res, &rec, &entries, t0);
+            }
+            let mut bodies: Vec<Box<dyn FnOnce() + Send>> = Vec::new();
+            for (th, ops) in scn.threads.iter().enumerate() {
+                let (ops, res, rec, entries) = (ops.clone(), res.clone(), rec.clone(), entries.clone());
+                bodies.push(Box::new(move || {
+                    for op in &ops {
+                        c16_do(op, th, &res, &rec, &entries, t0);
+                    }
+                }));
+            }
+            let (scn2, rec2, res2, lis2) = (scn.clone(), rec.clone(), res.clone(), lis.clone());
+            let finish = Box::new(move |_v: &Verdict| -> Vec<Value> {
+                let ext = scn2.setup.iter().any(|o| matches!(o, COp::LoadIso(_)));
+                let mut evs = vec![json!({"e": "begin", "scn": scn2.name, "thr": scn2.thr, "minreq": scn2.minreq, "retry": 1000, "ext": ext})];
+                let calls = rec2.take();
+                let ntr = calls.iter().filter(|c| c["e"] == "tr").count();
+                evs.extend(calls);
+                let brs = cb::get_breakers_of_resource(&res2);
+                let st = brs.first().map(|b| match b.current_state() {
+                    cb::State::Closed => "closed",
+                    cb::State::HalfOpen => "halfopen",
+                    cb::State::Open => "open",
+                }).unwrap_or("none");
+                evs.push(json!({"e": "end", "st": st, "ntr": ntr, "onebucket": scn2.onebucket}));
+                *lis2.rec.lock().unwrap() = None;
+                for (_, e) in entries.lock().unwrap().drain() {
+                    let _ = guarded(|| e.exit());
+                }
+                cb::clear_rules_of_resource(&res2);
+                isolation::clear_rules_of_resource(&res2);
+                evs
+            });
+            (bodies, finish)
+        });
+        summary.push(json!({"scenario": scn.name, "executions": o.executions, "distinct_traces": o.distinct,
+                            "dfs_exhausted": o.exhausted, "diverged": o.diverged, "verdicts": o.verdicts}));
+        if !o.verdicts.is_empty() {
+            break;
+        }
+    }
+    sync::uninstall();
+    println!("{}", json!({"summary": summary}));
+    out.finish();
+    std::process::exit(0);
+}
